@@ -46,33 +46,47 @@ Definition nth_tip (st : bar_style) (count : Z) : Z * Z :=
 
 Definition nonempty (l : list seg) : list seg := filter (fun s => 0 <? cnt s) l.
 
+(* the four fill loops of bFiller.Fill: fillers up to curw, refillers up to refw,
+   paddings and then ellipses up to width; [docur] is curWidth != 0 *)
+Definition fill_counts (st : bar_style) (width curw refw fc0 : Z) (docur : bool)
+  : option (Z * Z * Z * Z) :=
+  match (if docur then run_loop (fw st) curw fc0 else Some (0, fc0)) with None => None | Some (nf, fc1) =>
+  match (if docur then run_loop (rw st) refw fc1 else Some (0, fc1)) with None => None | Some (nr, fc2) =>
+  match run_loop (pw st) width fc2 with None => None | Some (np, fc3) =>
+  match run_loop 1 width fc3 with None => None | Some (ne, _) => Some (nf, nr, np, ne)
+  end end end end.
+
+(* the tip frame of this call: segment, width, new counter *)
+Definition choose_tip (st : bar_style) (tipcount width cur : Z) (completed : bool) : list seg * Z * Z :=
+  if negb (cur =? 0) && (negb completed || tip_on_complete st)
+  then let '(i, tw) := nth_tip st tipcount in
+       (* a tip frame wider than the bar itself is not drawn; the counter still advances *)
+       if tw <=? width then ([mkSeg (cTip i) 1 tw], tw, tipcount + 1) else ([], 0, tipcount + 1)
+  else ([], 0, tipcount).
+
+(* curWidth / refWidth after the refill adjustment *)
+Definition cur_ref (s : stat) (width cur : Z) : Z * Z :=
+  if cur =? 0 then (0, 0) else
+  if negb (s_refill s =? 0)
+  then let r := cells (s_total s) (s_refill s) width in (cur - r, r + (cur - r))
+  else (cur, 0).
+
 (* bFiller.Fill: returns the segments written and the new tip counter *)
 Definition fill_bar (st : bar_style) (tipcount : Z) (s : stat) : option (list seg * Z) :=
   let width := check_requested_width (req s) (avail s) - (lb st + rb st) in
   if width <? 0 then Some ([], tipcount) else
   if width =? 0 then Some ([mkSeg cL 1 (lb st); mkSeg cR 1 (rb st)], tipcount) else
   let cur := cells (s_total s) (s_current s) width in
-  let '(tipseg, tipw, tipcount') :=
-    if negb (cur =? 0) && (negb (s_completed s) || tip_on_complete st)
-    then let '(i, tw) := nth_tip st tipcount in
-         (* a tip frame wider than the bar itself is not drawn; the counter still advances *)
-         if tw <=? width then ([mkSeg (cTip i) 1 tw], tw, tipcount + 1) else ([], 0, tipcount + 1)
-    else ([], 0, tipcount) in
-  let fc0 := tipw in
-  let '(curw, refw) :=
-    if cur =? 0 then (0, 0) else
-    if negb (s_refill s =? 0)
-    then let r := cells (s_total s) (s_refill s) width in (cur - r, r + (cur - r))
-    else (cur, 0) in
-  match (if cur =? 0 then Some (0, fc0) else run_loop (fw st) curw fc0) with None => None | Some (nf, fc1) =>
-  match (if cur =? 0 then Some (0, fc1) else run_loop (rw st) refw fc1) with None => None | Some (nr, fc2) =>
-  match run_loop (pw st) width fc2 with None => None | Some (np, fc3) =>
-  match run_loop 1 width fc3 with None => None | Some (ne, fc4) =>
+  let '(tipseg, tipw, tipcount') := choose_tip st tipcount width cur (s_completed s) in
+  let '(curw, refw) := cur_ref s width cur in
+  match fill_counts st width curw refw tipw (negb (cur =? 0)) with
+  | None => None
+  | Some (nf, nr, np, ne) =>
     let sections := [ [mkSeg cRefill nr (rw st)]; [mkSeg cFill nf (fw st)]; tipseg;
                       [mkSeg cPad np (pw st); mkSeg cEll ne 1] ] in
     let body := concat (if reverse st then List.rev sections else sections) in
     Some ([mkSeg cL 1 (lb st)] ++ nonempty body ++ [mkSeg cR 1 (rb st)], tipcount')
-  end end end end.
+  end.
 
 (* sFiller.Fill *)
 Record spin_style := mkSpin { frames : list Z; position : Z (* 0 centre, 1 left, 2 right *) }.
